@@ -1,6 +1,7 @@
 CONSTANTS LimitBytes = 512000
 SPECIFICATION TraceSpec
 INVARIANT DeliveredAtFini
+INVARIANT DeliveredAtFini2
 INVARIANT NeverOverReportedF
 INVARIANT CounterOK
 POSTCONDITION TraceAccepted
